@@ -34,13 +34,14 @@ class FakeFS(object):
             shutil.copyfile(s, d)
         return True
 
-    def head(self, path, max_bytes=65536):
+    def head(self, path, maxBytes=65536):
+        """like dbutils.fs.head: at most the first maxBytes bytes of the file, as text"""
         self.calls.append(("head", str(path)))
         p = self._local(path)
         if not os.path.isfile(p):
             raise FileNotFoundError("java.io.FileNotFoundException: " + str(path))
         with open(p, "rb") as f:
-            return f.read(max_bytes).decode("utf-8")
+            return f.read(maxBytes).decode("utf-8", errors="replace")
 
     def put(self, path, contents, overwrite=False):
         self.calls.append(("put", str(path)))
